@@ -28,8 +28,11 @@ Lcm(a, b) == (a \div Gcd(a, b)) * b
 RECURSIVE LcmUpTo(_, _)
 LcmUpTo(keys, j) == IF j = 0 THEN 1
                     ELSE IF keys[j] = 0 THEN LcmUpTo(keys, j - 1) ELSE Lcm(keys[j], LcmUpTo(keys, j - 1))
-(* common multiple of all non-zero keys of the data set *)
-CommonMultiple(keys) == LcmUpTo(keys, Len(keys))
+(* common multiple of the non-zero keys that can occur in a k-nearest set (those not beyond
+   the k-th key): keeps the integer weights small whatever the size of the training set *)
+CommonMultiple(keys, k) ==
+    LET t == KthKey(keys, k)
+    IN  LcmUpTo([i \in 1..Len(keys) |-> IF keys[i] <= t THEN keys[i] ELSE 0], Len(keys))
 
 (* integer weight of training row i within the neighbour set S *)
 Weight(weight, keys, S, L, i) ==
@@ -57,11 +60,11 @@ IsPluralityOver(weight, keys, S, L, y, out) ==
     /\ LET w == ClassWeight(weight, keys, S, L, y, out)
        IN  \A c \in { y[i] : i \in S } : ClassWeight(weight, keys, S, L, y, c) <= w
 
-WeightBase(weight, keys) == IF weight = "uniform" THEN 1 ELSE CommonMultiple(keys)
+WeightBase(weight, keys, k) == IF weight = "uniform" THEN 1 ELSE CommonMultiple(keys, k)
 
 PredClassOKL(weight, keys, y, k, out, L) ==      \* L is passed in so that TLC computes it once
     \E S \in NearSets(keys, k) : IsPluralityOver(weight, keys, S, L, y, out)
-PredClassOK(weight, keys, y, k, out) == PredClassOKL(weight, keys, y, k, out, WeightBase(weight, keys))
+PredClassOK(weight, keys, y, k, out) == PredClassOKL(weight, keys, y, k, out, WeightBase(weight, keys, k))
 
 (***************************************************************************)
 (* Regressor: the prediction, observed as the fixed-point integer          *)
@@ -78,15 +81,15 @@ IsMeanOver(weight, keys, S, L, y, out) ==
 
 PredRegOKL(weight, keys, y, k, out, L) ==
     \E S \in NearSets(keys, k) : IsMeanOver(weight, keys, S, L, y, out)
-PredRegOK(weight, keys, y, k, out) == PredRegOKL(weight, keys, y, k, out, WeightBase(weight, keys))
+PredRegOK(weight, keys, y, k, out) == PredRegOKL(weight, keys, y, k, out, WeightBase(weight, keys, k))
 
-(* 32-bit guard: the largest intermediate is  k * L * max|y| * 2^FxS *)
+(* 32-bit guard: the largest intermediate is  k * L * max|y| * FxS *)
 MaxAbs(y) == LET RECURSIVE go(_)
                  go(j) == IF j = 0 THEN 0 ELSE Max2(Abs(y[j]), go(j - 1))
              IN go(Len(y))
-Fits(weight, keys, y) ==
-    LET L == WeightBase(weight, keys)
-    IN  L <= 2520 /\ Len(keys) * L * (MaxAbs(y) + 1) <= 2000000
+Fits(weight, keys, y, k) ==
+    LET L == WeightBase(weight, keys, k)
+    IN  L <= 2520 /\ k * L * (MaxAbs(y) + 1) <= 2000000
 
 (***************************************************************************)
 (* Error table of the estimators.  "k = 0, k > n ... are reported as       *)
